@@ -73,12 +73,12 @@ STAT_T = ObjT("stat_result", st_size=Int, st_mtime=Opaque("Float"), st_mode=Int)
 
 def self_t(cls):
     return ObjT(cls, headers=MH_T, cookies=List(Opaque("Cookie")), filepath=Str, content_type=Str, chunk_size=Int,
-                status_code=Int, stat_result=STAT_T, download_name=Opt(Str))
+                status_code=Int, stat_result=STAT_T)
 
 
 TR_T = ObjT("Trace", n_start=Int, status=Str, code=Int, hl=Opaque("HeaderList"))
 OUT_T = ObjT("Out", out_len=Int, n_yield=Int, part_off=Int, cur_end=Int, n_body=Int, last_more=Bool, all_more=Bool,
-             opened=Int)
+             opened=Int, phase=Int, n_parts=Int)
 
 
 def status_line(code_t):
@@ -222,6 +222,7 @@ COMMON_REQ = [
 ]
 HDEFS = dict(DEFS)
 HDEFS.update({
+    "boundary_of(h)": "hl_get(h, 'content-type')[31:]",
     "unclean(s)": "has(s, '\\n') or has(s, '\\r') or has(s, '\\0')",
     "hdr_is(name, v)": "hl_has(tr.hl, name) and hl_get(tr.hl, name) == v",
     "other_headers_kept(a, b, c)": "forall((k, Str), implies(k != a and k != b and k != c, "
@@ -269,3 +270,147 @@ W_HANDLE_ALL = Contract(
 def register_handlers(reg):
     reg._opaque_index["StatusMap"] = status_index
     reg.add(W_HANDLE_ALL)
+    reg.add(W_HANDLE_SINGLE)
+    reg.add(W_HANDLE_SEVERAL)
+
+
+W_HANDLE_SINGLE = Contract(
+    id="wsgi.handle_single_range", file=W, qualname="FileResponse.handle_single_range", props=["C02", "C05"], generator=True,
+    params={"self": self_t(WFR), "send_header_only": Bool, "file_size": Int,
+            "start_response": TFunc(start_response_stub, "start_response"), "start": Int, "end": Int},
+    ghosts={"tr": TR_T, "out": OUT_T, "fsize": Int},
+    requires=COMMON_REQ + ["0 <= start and start < end and end <= file_size", "out.part_off == start", "out.cur_end == end"],
+    defs=HDEFS, ufuncs=HUF, consts=wsgi_consts(),
+    stubs={"open": open_stub}, stub_methods=FILE_METHODS,
+    on_yield=make_yield(lambda ev, out: out.fields["part_off"].t), yield_mods=("out",),
+    modifies=["self.headers._dict"], ghost_modifies=["tr", "out"],
+    raises={"ValueError": "unclean(self.content_type)"},
+    raises_ensures={"ValueError": {"ensures": ["nothing_emitted()"]}},
+    ensures={
+        "start.once": "tr.n_start == 1",
+        "status": "tr.status == status_line(206)",
+        "content-range": "hdr_is('content-range', 'bytes ' + str(start) + '-' + str(end - 1) + '/' + str(file_size))",
+        "content-length": "hdr_is('content-length', str(end - start))",
+        "content-type": "hdr_is('content-type', self.content_type)",
+        "headers.kept": "other_headers_kept('content-length', 'content-type', 'content-range')",
+        "head": "implies(send_header_only, out.out_len == 0 and out.n_yield == 1 and out.opened == 0)",
+        # contiguity (yield.contiguous, from `start`) + this length => the body is exactly file[start:end]
+        "get": "implies(not send_header_only, out.out_len == end - start and out.part_off == end and out.opened == 1)",
+    },
+    invariants={1: ["file.pos == out.part_off", "file.size == fsize", "out.cur_end == end",
+                    "out.part_off == (IDX if IDX <= end else end)", "out.out_len == out.part_off - start",
+                    "tr.n_start == 1", "out.opened == 1"]},
+    canaries={"short": "implies(not send_header_only, out.out_len < end - start)"},
+    assumptions=["A-fs-1", "A-fs-2", "A-server", "A-status-table", "A-list-headers"],
+)
+
+
+def random_choices_stub(ev, args, kwargs, node):
+    """random.choices(alphabet, k=13): a list of 13 one-character strings from the alphabet (A-random)"""
+    USED.add("A-random")
+    st = ev.st
+    vals = []
+    for i in range(13):
+        ch = st.fresh(Str, "rc")
+        st.assume(z3.InRe(ch.t, z3.Union(z3.Range("a", "z"), z3.Range("0", "9"))))
+        st.assume(z3.Length(ch.t) == 1)
+        for bad in ("\n", "\r", "\0"):
+            st.assume(ch.t != z3.StringVal(bad))
+        vals.append(ch)
+    return VTuple(vals)
+
+
+def several_yield(ev, v, node):
+    """on_yield of handle_several_ranges: the body must be  (header_k  slice_k  LF)*  closing-line, parts in the
+    order of `ranges`, each header the RFC layout for its range, each slice contiguous and complete.
+    phase: 0 expecting a part header or the closing line, 1 inside a part, 2 closed, 3 HEAD (single empty chunk)."""
+    from pyvc.contract import spec_value
+    st = ev.st
+    c = ev.frame.root().contract
+    out = st.obj(st.ghost["out"])
+    tr = st.obj(st.ghost["tr"])
+    line = getattr(node, "lineno", 0)
+    st.oblige("%s/yield.bytes" % c.id, isinstance(v, VStr) and v.isbytes, note="only bytes are yielded", line=line)
+    if not isinstance(v, VStr):
+        return
+    st.oblige("%s/trace.started_before_yield" % c.id, tr.fields["n_start"].t == 1, line=line)
+    phase = out.fields["phase"].t
+    f = out.fields
+    if v.tag and v.tag[0] == "hdr":
+        s, e = v.tag[1], v.tag[2]
+        ranges = ev.frame.root().lookup("ranges")
+        ro = st.obj(ranges)
+        k = f["n_parts"].t
+        st.oblige("%s/yield.part_header_in_phase0" % c.id, phase == 0, line=line)
+        st.oblige("%s/yield.part_is_next_range" % c.id, z3.And(k >= 0, k < ro.length, s.t == ro.cols[0][k], e.t == ro.cols[1][k]),
+                  note="the k-th part describes the k-th range", line=line)
+        want = spec_value(ev, "part_header(boundary_of(tr.hl), self.content_type, file_size, s_, e_)", {"s_": s, "e_": e})
+        st.oblige("%s/yield.part_header_text" % c.id, v.t == want.t,
+                  note="part header == '--B\\nContent-Type: T\\nContent-Range: bytes s-(e-1)/size\\n\\n' with the boundary announced in Content-Type", line=line)
+        f["phase"] = VInt(1)
+        f["part_off"] = s
+        f["cur_end"] = e
+    elif v.tag and v.tag[0] == "file":
+        off, ln = v.tag[1], v.tag[2]
+        st.oblige("%s/yield.data_in_phase1" % c.id, phase == 1, line=line)
+        st.oblige("%s/yield.contiguous" % c.id, off == f["part_off"].t,
+                  note="file chunk starts where the previous one ended", line=line)
+        st.oblige("%s/yield.within_part" % c.id, off + ln <= f["cur_end"].t, line=line)
+        f["part_off"] = VInt(off + ln)
+    else:
+        if st.decide(phase == 1):
+            st.oblige("%s/yield.part_terminator" % c.id, z3.And(v.t == z3.StringVal("\n"), f["part_off"].t == f["cur_end"].t),
+                      note="a part ends with LF after all of its range was delivered", line=line)
+            f["phase"] = VInt(0)
+            f["n_parts"] = VInt(f["n_parts"].t + 1)
+        elif st.decide(z3.Length(v.t) == 0):
+            st.oblige("%s/yield.empty_only_for_head" % c.id, z3.And(phase == 0, f["n_yield"].t == 0), line=line)
+            f["phase"] = VInt(3)
+        else:
+            want = spec_value(ev, "closing(boundary_of(tr.hl))")
+            st.oblige("%s/yield.closing_line" % c.id, z3.And(phase == 0, v.t == want.t),
+                      note="the body ends with '--B--\\n'", line=line)
+            f["phase"] = VInt(2)
+    f["out_len"] = VInt(f["out_len"].t + z3.Length(v.t))
+    f["n_yield"] = VInt(f["n_yield"].t + 1)
+
+
+W_HANDLE_SEVERAL = Contract(
+    id="wsgi.handle_several_ranges", file=W, qualname="FileResponse.handle_several_ranges", props=["C02", "C05"], generator=True,
+    params={"self": self_t(WFR), "send_header_only": Bool, "file_size": Int,
+            "start_response": TFunc(start_response_stub, "start_response"), "ranges": List(Tup(Int, Int))},
+    ghosts={"tr": TR_T, "out": OUT_T, "fsize": Int},
+    requires=COMMON_REQ + ["forall(k, 0, len(ranges), 0 <= ranges[k][0] and ranges[k][0] < ranges[k][1] and ranges[k][1] <= file_size)",
+                           "out.part_off == out.cur_end", "out.phase == 0", "out.n_parts == 0"],
+    defs=HDEFS, ufuncs=HUF, consts=wsgi_consts(),
+    stubs={"open": open_stub, "random_choices": random_choices_stub}, stub_methods=FILE_METHODS,
+    on_yield=several_yield, yield_mods=("out",),
+    modifies=["self.headers._dict"], ghost_modifies=["tr", "out"],
+    raises={"ValueError": "unclean(self.content_type)"},
+    raises_ensures={"ValueError": {"ensures": ["out.n_yield == 0 and out.opened == 0"]}},
+    ensures={
+        "start.once": "tr.n_start == 1",
+        "status": "tr.status == status_line(206)",
+        "content-type": "hl_has(tr.hl, 'content-type') and hl_get(tr.hl, 'content-type').startswith('multipart/byteranges; boundary=') "
+                        "and len(boundary_of(tr.hl)) == 13",
+        # declared length == bytes of the body: sum over the parts of header + slice + LF, plus the closing line
+        "content-length": "hdr_is('content-length', str(sum((len(part_header(boundary_of(tr.hl), self.content_type, file_size, s, e))"
+                          " + (e - s) + 1) for s, e in ranges) + len(closing(boundary_of(tr.hl)))))",
+        "head": "implies(send_header_only, out.out_len == 0 and out.n_yield == 1 and out.opened == 0 and out.phase == 3)",
+        "get": "implies(not send_header_only, str(out.out_len) == hl_get(tr.hl, 'content-length') and "
+               "out.phase == 2 and out.n_parts == len(ranges) and out.opened == 1)",
+        "headers.kept": "other_headers_kept('content-length', 'content-type', 'content-type')",
+    },
+    invariants={
+        1: ["file.size == fsize", "tr.n_start == 1", "out.opened == 1", "out.phase == 0", "out.n_parts == IDX",
+            "out.out_len == sum_upto(IDX, ((len(part_header(boundary, self.content_type, file_size, s, e)) + (e - s) + 1) for s, e in ranges))",
+            "hl_get(tr.hl, 'content-length') == str(content_length)", "hl_has(tr.hl, 'content-length')"],
+        2: ["file.size == fsize", "tr.n_start == 1", "out.opened == 1", "out.cur_end == end", "file.pos == out.part_off",
+            "out.phase == 1", "out.n_parts == IDX1",
+            "out.part_off == (IDX if IDX <= end else end)", "start <= out.part_off",
+            "out.out_len == sum_upto(IDX1, ((len(part_header(boundary, self.content_type, file_size, s, e)) + (e - s) + 1) for s, e in ranges))"
+            " + len(part_header(boundary, self.content_type, file_size, start, end)) + (out.part_off - start)",
+            "hl_get(tr.hl, 'content-length') == str(content_length)", "hl_has(tr.hl, 'content-length')"],
+    },
+    assumptions=["A-fs-1", "A-fs-2", "A-server", "A-status-table", "A-list-headers", "A-random", "A-fold-ext"],
+)
